@@ -16,6 +16,7 @@ def run(chk, replay=None):
     k2traits.run_traits(chk, 4 if chk.tier == "quick" else 20, 15, monitor=(chk.tier != "quick"))
     k2.standard_k2(chk)
     k2v2.standard_k2v2(chk)   # second-generation model Calc2 (lifetimes, contexts, more algorithms): tie (theorems: Properties_*_calc2.v)
+    from units import traits_multi; traits_multi.run(chk)
 
 
 def probe_traits(chk):
